@@ -12,6 +12,7 @@ from __future__ import annotations
 import dataclasses
 import gc
 import itertools
+import json
 import sys
 import types
 from typing import Dict, Optional
@@ -215,17 +216,49 @@ class Realm:
         raise ValueError("unknown op " + k)
 
 
-def run_steps(universe, steps):
-    """Shared context vs fresh context, call by call (the shape of ctx.run)."""
-    realm = Realm(universe)
+_PERSISTENT: dict[str, tuple] = {}
+
+
+def _persistent(universe):
+    key = json.dumps(universe, sort_keys=True)
+    hit = _PERSISTENT.get(key)
+    if hit is None:
+        realm = Realm(universe)
+        realm.set_world(len(universe), 0)
+        hit = _PERSISTENT[key] = (realm, {})
+    return hit
+
+
+def run_steps(universe, steps, keep=False):
+    """Shared context vs fresh context, call by call (the shape of ctx.run).
+
+    keep=True (bounded-exhaustive part, every class loaded from the start): the
+    realm's classes are created once and reused by later cases, and the result
+    of a call on a *fresh* context is computed once per (world, op) - a fresh
+    context has no history by construction."""
+    n = len(universe)
+    if keep and all(st["loaded"] == n for st in steps):
+        realm, memo = _persistent(universe)
+        close = False
+    else:
+        realm, memo, close = Realm(universe), None, True
     try:
         shared = realm.context()
         out = []
         for st in steps:
             realm.set_world(st["loaded"], st["mods"])
             o = realm.call(shared, st["op"])
-            f = realm.call(realm.context(), st["op"])
+            if memo is None:
+                f = realm.call(realm.context(), st["op"])
+            else:
+                k = json.dumps([st["mods"], st["op"]], sort_keys=True)
+                f = memo.get(k)
+                if f is None:
+                    f = memo[k] = realm.call(realm.context(), st["op"])
             out.append({"shared": o, "fresh": f, "state": realm.state(shared)})
         return out
     finally:
-        realm.close()
+        if close:
+            realm.close()
+        else:
+            realm.set_mods(0)
